@@ -64,7 +64,7 @@ struct Slot {
     Packet* packet = nullptr;  // or a Packet wrapper owning its PDU
     MChain model;
     bool live() const { return root || packet; }
-    PDU* top() const { return packet ? packet->pdu() : root; }
+    PDU* top() const { return packet ? packet->pdu() : root; }   // null for an empty Packet
 };
 
 std::string layer_fields(const PDU& l) {
@@ -130,7 +130,7 @@ struct Machine {
         PDU* p = make_layer((unsigned)s.pick(n_layer_classes()), s, o.max_payload, name);
         std::vector<std::string> prog;
         if (s.chance(60)) apply_setters(*p, s, o, prog);
-        if (s.chance(40)) option_program(*p, s, prog);
+        if (s.chance(40)) option_program(*p, s, prog, true);
         enforce_capacity(*p, ctx, prog);
         if (IP* ip = dynamic_cast<IP*>(p)) if (ip->src_addr() == IPv4Address((uint32_t)0)) ip->src_addr("10.0.0.9");
         return p;
@@ -241,6 +241,25 @@ struct Machine {
         check_copy_equal(*slots[a].top(), *r, via_clone ? "clone" : "copy-construct", slots[a].model[0].unknown);
         resync(a); resync(c);
         ctx.label(via_clone ? "clone" : "copy-construct");
+    }
+    // a layer that is NOT a root is cloned / copy-constructed and kept as a user-owned root of its own
+    void op_copy_inner(bool via_clone) {
+        int a = pick_live();
+        if (a < 0) return;
+        size_t n = depth_of(slots[a].top());
+        if (n < 2) return;
+        size_t d = 1 + s.pick(n - 1);
+        PDU* src = layer_at(slots[a].top(), d);
+        PDU* r;
+        if (via_clone) r = src->clone();
+        else { const ClassOps* o = ops_for(*src); if (!o) return; r = o->copy_construct(*src); }
+        MChain m(slots[a].model.begin() + d, slots[a].model.end());
+        int c = pick_free();
+        if (c == a) { delete r; return; }
+        slots[c].root = r;
+        slots[c].model = m;
+        step("s" + std::to_string(c) + " = " + (via_clone ? "clone" : "copy-construct") + " of s" + std::to_string(a) + ".layer(" + std::to_string(d) + ")");
+        ctx.label("copy-of-inner-layer");
     }
     void op_copy_assign() {
         int a = pick_live();
@@ -414,8 +433,44 @@ struct Machine {
         step("mutate s" + std::to_string(a) + ".layer(" + std::to_string(d) + "): " + t);
         ctx.label("mutate");
     }
+    int pick_packet(bool need_pdu) {
+        std::vector<int> ps;
+        for (size_t i = 0; i < slots.size(); ++i) if (slots[i].packet && (!need_pdu || slots[i].packet->pdu())) ps.push_back((int)i);
+        return ps.empty() ? -1 : ps[s.pick(ps.size())];
+    }
     void op_packet() {
-        switch (s.range(0, 6)) {
+        static const unsigned PK[] = {0, 1, 2, 3, 4, 5, 6, 6, 7, 7, 7, 8};
+        switch (PK[s.pick(12)]) {
+            case 6: {  // an empty (default-constructed) Packet
+                int c = pick_free();
+                slots[c].packet = new Packet();
+                slots[c].model.clear();
+                step("s" + std::to_string(c) + " = Packet() (empty)");
+                ctx.label("empty-packet");
+                break;
+            }
+            case 7: {  // copy assignment between any two packets, empty ones included (empty over full, full over empty)
+                int a = pick_packet(false), b = pick_packet(false);
+                if (a < 0 || b < 0) return;
+                *slots[a].packet = *slots[b].packet;
+                if (a != b) slots[a].model = slots[b].model;
+                step("packet s" + std::to_string(a) + " = packet s" + std::to_string(b) + (slots[b].packet->pdu() ? "" : " (empty source)"));
+                if (!slots[b].packet->pdu()) ctx.label("assign-from-empty-packet");
+                break;
+            }
+            case 8: {  // release_pdu leaves an empty wrapper behind (kept alive)
+                int a = pick_packet(true);
+                if (a < 0) return;
+                int c = pick_free();   // may evict any slot, including a
+                if (c == a || !slots[a].packet || !slots[a].packet->pdu()) return;
+                PDU* r = slots[a].packet->release_pdu();
+                MChain m = slots[a].model;
+                slots[a].model.clear();
+                slots[c].root = r; slots[c].model = m;
+                step("s" + std::to_string(c) + " = packet s" + std::to_string(a) + ".release_pdu() (wrapper kept, now empty)");
+                ctx.label("empty-packet");
+                break;
+            }
             case 0: {  // wrap by reference (clones)
                 int a = pick_live();
                 if (a < 0) return;
@@ -545,7 +600,7 @@ void prop(Src& s, Ctx& ctx) {
     m.check_all("construct");
     for (unsigned i = 0; i < steps; ++i) {
         size_t before = m.trace.size();
-        switch (s.weighted({4, 3, 2, 2, 2, 4, 2, 2, 1, 2, 2, 3, 1, 4, 3})) {
+        switch (s.weighted({4, 3, 2, 2, 2, 4, 2, 2, 1, 2, 2, 3, 1, 4, 6, 2, 2})) {
             case 0: m.op_construct(); break;
             case 1: m.op_stack_assign(); break;
             case 2: m.op_divide(); break;
@@ -560,7 +615,9 @@ void prop(Src& s, Ctx& ctx) {
             case 11: m.op_release(); break;
             case 12: m.op_delete(); break;
             case 13: m.op_mutate(); break;
-            default: m.op_packet(); break;
+            case 14: m.op_packet(); break;
+            case 15: m.op_copy_inner(false); break;
+            default: m.op_copy_inner(true); break;
         }
         if (m.trace.size() != before) m.check_all(m.trace.back());
     }
